@@ -51,6 +51,7 @@ class Effect:
     path_arg: Optional[ast.AST] = None
     path_tags: frozenset = frozenset()
     text: str = ""
+    known: bool = True   # False: not in any table — classified by the conservative fallback (receives a target/staging value)
 
 
 class EffectAnalysis:
@@ -213,8 +214,39 @@ class EffectAnalysis:
                         continue
                     self._classify_call(node, c, st)
 
+    def _function_alias(self, name: str):
+        """`remove = shutil.rmtree if os.path.isdir(p) else os.remove` (or a plain `remove = os.remove`): the table names a local callable
+        may stand for, when every binding of the name is of that form; else None."""
+        from ..core.repo import definitions
+        defs = definitions(self.fn, name)
+        if not defs:
+            return None
+        out = set()
+        for d in defs:
+            alts = [d.body, d.orelse] if isinstance(d, ast.IfExp) else [d]
+            for a in alts:
+                dn = dotted(a) if isinstance(a, (ast.Name, ast.Attribute)) else None
+                if dn is None:
+                    return None
+                out.add(dn)
+        return out
+
     def _classify_call(self, node: Node, c: ast.Call, st) -> None:
         cn = call_name(c) or unparse(c.func)[:40]
+        if isinstance(c.func, ast.Name):
+            al = self._function_alias(c.func.id)
+            if al and (al <= REMOVERS or al <= CREATORS or al <= ATOMIC or al <= READONLY):
+                cn = sorted(al)[0] if len(al) == 1 else "|".join(sorted(al))
+                if len(al) > 1:
+                    # either of several removers (file or directory chosen at run time): classified as one removal of its path argument
+                    argt = self._expr_tags(c.args[0], st) if c.args else frozenset()
+                    if al <= REMOVERS:
+                        kind = "remove" if ("T" in argt or "T'" in argt or not argt) else "staging"
+                        self.effects.append(Effect(node.id, c, cn, kind, frozenset(argt), c.args[0] if c.args else None, argt, unparse(c)[:90]))
+                        return
+                    if al <= READONLY:
+                        return
+                    cn = call_name(c) or cn
         short = cn.split(".")[-1]
         argtags: set = set()
         for a in list(c.args) + [k.value for k in c.keywords]:
@@ -258,9 +290,9 @@ class EffectAnalysis:
         if short.endswith(("Error", "Exception", "Warning")):
             return
         if "T" in all_tags or "T'" in all_tags:
-            self.effects.append(Effect(node.id, c, cn, "write", all_tags, None, frozenset(), text))
+            self.effects.append(Effect(node.id, c, cn, "write", all_tags, None, frozenset(), text, known=False))
         elif "S" in all_tags:
-            self.effects.append(Effect(node.id, c, cn, "staging", all_tags, None, frozenset(), text))
+            self.effects.append(Effect(node.id, c, cn, "staging", all_tags, None, frozenset(), text, known=False))
 
     # ------------------------------------------------------------ convenience
     def target_effects(self, kinds=("write", "remove", "creator", "atomic")) -> list[Effect]:
